@@ -17,6 +17,7 @@
   `true` and are accepted for the fact by unfolding it, so they stop checking if the fact changes.
 -/
 import SA.Proofs.Wrappers
+import SA.Gen.PkgVars
 namespace SA.Wrappers
 
 /-! ### from handle-addressed to path-addressed runs -/
@@ -320,3 +321,15 @@ end SA.Wrappers
 #print axioms SA.Wrappers.C19_outermost_close_once
 #print axioms SA.Wrappers.C19_outermost_closed_false_before
 #print axioms SA.Wrappers.C19_trace_split
+
+namespace SA.PkgState
+/-- **no_hidden_process_state**: the models of this property are functions of their arguments and of the objects they are
+    handed; the packages they model keep no package-level variables besides these (regenerated inventory: error
+    sentinels, tables, compiled patterns, the two session time-outs).  A new package-level variable — a counter, a cache, a
+    scratch buffer, a shared map, a registry — would make later calls depend on earlier ones, or concurrent calls on each
+    other, outside anything a per-call comparison of model and code can see. -/
+theorem C19_no_hidden_process_state :
+    Gen.pkgVarNames_streams = ["Localhost"] := by decide
+end SA.PkgState
+
+#print axioms SA.PkgState.C19_no_hidden_process_state
